@@ -62,7 +62,7 @@ theorem handshake_ok_reply (it : Item) (h : (handshake it).2 = true) :
       · rw [if_pos h2] at h; simp at h
       · rw [if_neg h2] at h ⊢
         cases hb : m.body with
-        | undecodable => rw [hb] at h; simp at h
+        | undecodable _ => rw [hb] at h; simp at h
         | call t => rw [hb] at h; simp at h
         | handshake wf ok v =>
           rw [hb] at h
@@ -84,7 +84,7 @@ theorem handshake_fail_reply (it : Item) (h : (handshake it).2 = false) :
       · rw [if_pos h2] at hr; simp at hr; subst hr; rfl
       · rw [if_neg h2] at h hr
         cases hb : m.body with
-        | undecodable => rw [hb] at hr; simp at hr; subst hr; rfl
+        | undecodable _ => rw [hb] at hr; simp at hr; subst hr; rfl
         | call t => rw [hb] at hr; simp at hr; subst hr; rfl
         | handshake wf ok v =>
           rw [hb] at h hr
